@@ -352,3 +352,44 @@ mod verif_k {
         std::mem::forget(g);
     }
 }
+
+//@append src/util_lifted.rs
+// ---- ascii_lc_equal (private to src/util.rs; C20): the contract the Verus unit V-url assumes for it --
+// `ascii_lc_equal(s, t) == (len equal && for all i: s[i] == lowercase(t[i]))`, for the two names get_url_params passes
+#[cfg(kani)]
+mod verif_lc {
+    use super::*;
+    fn lower(c: u8) -> u8 { if c >= b'A' && c <= b'Z' { c + 32 } else { c } }
+
+    // complete for the property's purpose: both literal names have 8 bytes, every 8-byte ASCII candidate is covered
+    #[kani::proof]
+    #[kani::unwind(10)]
+    fn ascii_lc_equal_len8() {
+        let t: [u8; 8] = kani::any();
+        let mut i = 0;
+        while i < 8 { kani::assume(t[i] < 128); i += 1; }
+        let ts = unsafe { std::str::from_utf8_unchecked(&t) };
+        let which: bool = kani::any();
+        let s = if which { "bindname" } else { "x-bindpw" };
+        let sb = s.as_bytes();
+        let mut want = true;
+        let mut j = 0;
+        while j < 8 { if sb[j] != lower(t[j]) { want = false; } j += 1; }
+        kani::cover!(want, "some candidate matches");
+        assert!(ascii_lc_equal(s, ts) == want);
+    }
+
+    #[kani::proof]
+    #[kani::unwind(14)]
+    fn ascii_lc_equal_other_len() {
+        let t: [u8; 12] = kani::any();
+        let n: usize = kani::any();
+        kani::assume(n <= 12 && n != 8);
+        let mut i = 0;
+        while i < 12 { kani::assume(t[i] < 128); i += 1; }
+        let ts = unsafe { std::str::from_utf8_unchecked(&t[..n]) };
+        let which: bool = kani::any();
+        let s = if which { "bindname" } else { "x-bindpw" };
+        assert!(!ascii_lc_equal(s, ts));
+    }
+}
